@@ -344,7 +344,8 @@ func (a *analysis) syncOp(fr *frame, sts []*state, ce *ast.CallExpr, f *ast.Sele
 			a.unrecognised(ce.Pos(), "lock expression "+types.ExprString(f.X))
 			class = "unrecognised"
 		}
-		if strings.HasSuffix(class, ".mu") {
+		if isSync(derefField(info.TypeOf(f.X)), "Mutex") {
+			mutexClasses[class] = true
 			if strings.Contains(class, "/Cache.") {
 				a.sites[pos(ce.Pos())] = "@cache"
 			} else {
@@ -359,6 +360,27 @@ func (a *analysis) syncOp(fr *frame, sts []*state, ce *ast.CallExpr, f *ast.Sele
 				a.unrecognised(ce.Pos(), "unlock of "+class+" which is not held on this path")
 			}
 		case "Add":
+			// protocol fact: is the count raised while holding the object's token, or before the object is published
+			if sel, ok := f.X.(*ast.SelectorExpr); ok {
+				owner := typeName(info.TypeOf(sel.X))
+				ctor := fr.c.fresh[owner]
+				if o := objOf(sel.X); o != nil && st.fresh[o] {
+					ctor = true
+				}
+				_, hasToken := owners[owner]
+				if hasToken {
+					hasToken = false
+					for i := 0; i < owners[owner].NumFields(); i++ {
+						hasToken = hasToken || owners[owner].Field(i).Name() == "wgBlock"
+					}
+				}
+				a.wgAdds[wgAdd{class: class, fn: fr.c.f.name, token: st.holds(owner + ".wgBlock"), ctor: ctor, hasToken: hasToken, at: pos(ce.Pos())}] = true
+				a.acquire(fr, st, class, ce.Pos(), true)
+				if o := objOf(sel.X); o != nil && st.fresh[o] {
+					st.held[len(st.held)-1].unpub = o
+				}
+				continue
+			}
 			a.acquire(fr, st, class, ce.Pos(), true)
 		case "Done":
 			st.release(class) // a Done on a path where the matching RepoGet failed is unreachable in the code; not judged here
